@@ -148,7 +148,7 @@ def main():
     results = {}
     for pid, n in cands:
         key = seeded_id(pid, n)
-        if ROUND in ("6", "7", "8", "9", "10", "11", "12", "13"):
+        if int(ROUND) >= 6:
             # round 6 was assigned by subsystem (directories A..F); the kept change is filed under the property it breaks
             key = ("%s-r" + ROUND + "-%s%d") % (json.load(open((SRC % pid) + "/meta%d.json" % n))["property"], pid, n)
         patch = (SRC % pid) + "/patch%d.diff" % n
